@@ -234,6 +234,8 @@ const preludeText = `(declare-datatypes ((Ref 0)) (((Nil) (Obj (oid Int)) (Fld (
 (assert (forall ((b Ref) (i Int)) (! (= (rootOid (Fld b i)) (rootOid b)) :pattern ((Fld b i)))))
 (assert (forall ((b Ref) (i Int)) (! (= (rootOid (Elem b i)) (rootOid b)) :pattern ((Elem b i)))))
 (assert (forall ((g Int)) (! (= (rootOid (Glob g)) (- 1)) :pattern ((Glob g)))))
+(define-fun elemArr ((r Ref)) Ref (ite ((_ is Elem) r) (ebase r) (ite (and ((_ is Fld) r) ((_ is Elem) (fbase r))) (ebase (fbase r)) (ite (and ((_ is Fld) r) ((_ is Fld) (fbase r)) ((_ is Elem) (fbase (fbase r)))) (ebase (fbase (fbase r))) (ite (and ((_ is Fld) r) ((_ is Fld) (fbase r)) ((_ is Fld) (fbase (fbase r))) ((_ is Elem) (fbase (fbase (fbase r))))) (ebase (fbase (fbase (fbase r)))) Nil)))))
+(define-fun elemIdx ((r Ref)) Int (ite ((_ is Elem) r) (eidx r) (ite (and ((_ is Fld) r) ((_ is Elem) (fbase r))) (eidx (fbase r)) (ite (and ((_ is Fld) r) ((_ is Fld) (fbase r)) ((_ is Elem) (fbase (fbase r)))) (eidx (fbase (fbase r))) (ite (and ((_ is Fld) r) ((_ is Fld) (fbase r)) ((_ is Fld) (fbase (fbase r))) ((_ is Elem) (fbase (fbase (fbase r))))) (eidx (fbase (fbase (fbase r)))) 0)))))
 (declare-fun gomod (Int Int) Int)
 (declare-fun godiv (Int Int) Int)
 (declare-fun bitand (Int Int) Int)
